@@ -226,8 +226,9 @@ Proof.
 Qed.
 
 (* the body of one caret row, after the prefix matched *)
-Definition caret_tail (kind : string) (base : N) (sign : Z) (rest : str) : lexres :=
+Definition caret_tail (kind : string) (base : N) (sign : Z) (rest : str) : option lexres :=
   let (ds, after) := span (in_class kind) rest in
+  Some
   match ds with
   | [] => LCritical
   | _ =>
@@ -251,7 +252,7 @@ Definition kind_of_letter (l : N) : string :=
 
 Lemma caret_number_row sign l tail :
   In l [88; 120; 79; 111; 66; 98; 68; 100] ->
-  caret_number caret_prefixes sign (94 :: l :: tail) = Some (caret_tail (kind_of_letter l) (base_of_letter l) sign tail).
+  caret_number caret_prefixes sign (94 :: l :: tail) = caret_tail (kind_of_letter l) (base_of_letter l) sign tail.
 Proof.
   intros H. simpl in H.
   repeat (destruct H as [<-|H]; [reflexivity|]). destruct H.
@@ -263,18 +264,28 @@ Lemma follow_props rest : follow_ok rest = true ->
   starts_with_colon (skip rest) = false.
 Proof.
   unfold follow_ok. destruct rest as [|c r]; [intros _; repeat split|].
-  intros H. repeat (apply andb_true_iff in H; destruct H as [H ?]).
-  apply negb_true_iff in H0, H1, H2.
-  repeat split; try assumption;
-    unfold is_tokch in H2; repeat (apply orb_false_iff in H2; destruct H2 as [H2 ?]); assumption.
+  intros H.
+  apply andb_true_iff in H. destruct H as [H Hcol].
+  apply andb_true_iff in H. destruct H as [H Hword].
+  apply andb_true_iff in H. destruct H as [_ Htok].
+  apply negb_true_iff in Hcol, Hword, Htok.
+  split; [exact Htok|]. split; [|exact Hcol]. split; [exact Hword|].
+  unfold is_tokch in Htok.
+  apply orb_false_iff in Htok. destruct Htok as [Htok H46].
+  apply orb_false_iff in Htok. destruct Htok as [Htok H36].
+  split; assumption.
 Qed.
 
 Lemma in_class_not_tokch kind c : is_tokch c = false -> in_class kind c = false.
 Proof.
-  intros H. unfold is_tokch in H. repeat (apply orb_false_iff in H; destruct H as [H ?]).
+  intros H. unfold is_tokch in H.
+  apply orb_false_iff in H. destruct H as [H _].
+  apply orb_false_iff in H. destruct H as [H _].
+  apply orb_false_iff in H. destruct H as [H _].
+  apply orb_false_iff in H. destruct H as [H Halpha].
   unfold in_class.
   assert (Hl : (97 <=? ascii_lower c) && (ascii_lower c <=? 102) = false).
-  { unfold is_alpha in H2. apply orb_false_iff in H2. destruct H2 as [Hu Hlw].
+  { unfold is_alpha in Halpha. apply orb_false_iff in Halpha. destruct Halpha as [Hu Hlw].
     unfold ascii_lower. rewrite Hu. destruct ((97 <=? c) && (c <=? 102)) eqn:E; [|reflexivity].
     apply andb_true_iff in E. destruct E as [E1 E2]. apply N.leb_le in E1, E2.
     assert ((97 <=? c) && (c <=? 122) = true) by (apply andb_true_iff; split; apply N.leb_le; lia). congruence. }
@@ -295,7 +306,7 @@ Lemma lex_caret sign l cs rest n :
   good_chars (kind_of_letter l) (base_of_letter l) n cs -> follow_ok rest = true ->
   caret_number caret_prefixes sign (94 :: l :: cs ++ rest) = Some (LNumber (sign * Z.of_N n) false false false).
 Proof.
-  intros Hl G F. rewrite caret_number_row by exact Hl. f_equal. unfold caret_tail.
+  intros Hl G F. rewrite caret_number_row by exact Hl. unfold caret_tail.
   destruct (follow_props rest F) as [F1 [F2 _]].
   rewrite span_app; [|apply (g_class _ _ _ _ G)|destruct rest; [exact I | apply in_class_not_tokch; exact F1]].
   assert (P : py_int (base_of_letter l) cs = Some n).
@@ -333,7 +344,6 @@ Lemma plain_number_token sign tok rest c0 cr :
 Proof.
   intros E Hd Ht F. destruct (follow_props rest F) as [F1 [_ F3]].
   unfold plain_number. rewrite E at 1. cbn [app]. rewrite Hd. cbn [negb].
-  change (c0 :: cr ++ rest) with ((c0 :: cr) ++ rest). rewrite <- E.
   rewrite span_app by assumption. rewrite F3. reflexivity.
 Qed.
 
@@ -341,13 +351,12 @@ Lemma octal_chars cs : forallb (in_class "oct") cs = true ->
   forallb is_digit cs = true /\ mem_ch 56 cs = false /\ mem_ch 57 cs = false.
 Proof.
   induction cs as [|c r IH]; intros C; [repeat split|].
-  simpl in C. apply andb_true_iff in C. destruct C as [C1 C2]. destruct (IH C2) as [I1 [I2 I3]].
-  unfold in_class in C1. simpl in C1. apply andb_true_iff in C1. destruct C1 as [L U]. apply N.leb_le in L, U.
-  unfold mem_ch in *. simpl. rewrite I1, I2, I3. repeat split.
-  - unfold is_digit. replace (48 <=? c) with true by (symmetry; apply N.leb_le; lia).
-    replace (c <=? 57) with true by (symmetry; apply N.leb_le; lia). reflexivity.
-  - replace (56 =? c) with false by (symmetry; apply N.eqb_neq; lia). reflexivity.
-  - replace (57 =? c) with false by (symmetry; apply N.eqb_neq; lia). reflexivity.
+  cbn [forallb] in C. apply andb_true_iff in C. destruct C as [C1 C2]. destruct (IH C2) as [I1 [I2 I3]].
+  unfold in_class in C1. cbn in C1. apply andb_true_iff in C1. destruct C1 as [L U]. apply N.leb_le in L, U.
+  unfold mem_ch in *. cbn [forallb existsb]. rewrite I1, I2, I3. rewrite andb_true_r, !orb_false_r. repeat split.
+  - unfold is_digit. apply andb_true_iff. split; apply N.leb_le; lia.
+  - apply N.eqb_neq. lia.
+  - apply N.eqb_neq. lia.
 Qed.
 
 Lemma decimal_chars cs : forallb (in_class "dec") cs = true -> forallb is_digit cs = true.
@@ -439,6 +448,12 @@ Proof.
   repeat (destruct H as [<-|H]; [vm_compute; tauto|]). destruct H.
 Qed.
 
+Lemma digit_not_alpha c : is_digit c = true -> is_alpha c = false.
+Proof.
+  unfold is_digit, is_alpha. intros H. apply andb_true_iff in H. destruct H as [Q1 Q2]. apply N.leb_le in Q1, Q2.
+  apply orb_false_iff; split; apply andb_false_iff; left; apply N.leb_gt; lia.
+Qed.
+
 (* lexing a spelling, with a given sign already consumed *)
 Lemma lex_after_sign sign st mask n rest : style_ok st = true -> follow_ok rest = true ->
   match caret_number caret_prefixes sign (spell st mask n ++ rest) with
@@ -457,10 +472,7 @@ Proof.
     { pose proof (g_class _ _ _ _ G) as C. rewrite E in C. simpl in C. apply andb_true_iff in C. destruct C as [C _].
       destruct (octal_chars [c] ltac:(simpl; rewrite C; reflexivity)) as [D _]. simpl in D. rewrite andb_true_r in D. exact D. }
     split; [|split].
-    + rewrite E at 1. cbn [app]. rewrite caret_number_none; [|exact H4|unfold is_alpha, is_digit in *;
-        apply andb_true_iff in Hd; destruct Hd as [Q1 Q2]; apply N.leb_le in Q1, Q2;
-        apply orb_false_iff; split; apply andb_false_iff; [right | left]; apply N.leb_gt; lia].
-      change (c :: r ++ rest) with ((c :: r) ++ rest). rewrite <- E.
+    + rewrite E at 1. cbn [app]. rewrite caret_number_none; [|exact H4|apply digit_not_alpha; exact Hd].
       rewrite (plain_number_token sign _ rest c r E Hd (g_tok _ _ _ _ G) F). apply classify_oct. exact G.
     + rewrite E. cbn [app]. apply skip_head; assumption.
     + rewrite E. cbn [app]. destruct (N.eq_dec c 45); [contradiction|].
@@ -473,10 +485,8 @@ Proof.
     set (cs := chars_of mask 0 (digits 10 n)) in *.
     assert (Tk : forallb is_tokch (cs ++ [46]) = true) by (rewrite forallb_app, (g_tok _ _ _ _ G); reflexivity).
     split; [|split].
-    + rewrite <- app_assoc. rewrite E at 1. cbn [app]. rewrite caret_number_none; [|exact H4|unfold is_alpha, is_digit in *;
-        apply andb_true_iff in Hd; destruct Hd as [Q1 Q2]; apply N.leb_le in Q1, Q2;
-        apply orb_false_iff; split; apply andb_false_iff; [right | left]; apply N.leb_gt; lia].
-      change (c :: r ++ [46] ++ rest) with ((c :: r) ++ [46] ++ rest). rewrite <- E. rewrite app_assoc.
+    + rewrite <- app_assoc. rewrite E at 1. cbn [app]. rewrite caret_number_none; [|exact H4|apply digit_not_alpha; exact Hd].
+      replace (cs ++ 46 :: rest) with ((cs ++ [46]) ++ rest) by (rewrite <- app_assoc; reflexivity).
       rewrite (plain_number_token sign (cs ++ [46]) rest c (r ++ [46])); [apply classify_dec; exact G | rewrite E; reflexivity | exact Hd | exact Tk | exact F].
     + rewrite <- app_assoc. rewrite E. cbn [app]. apply skip_head; assumption.
     + rewrite <- app_assoc. rewrite E. cbn [app]. destruct (N.eq_dec c 45); [contradiction|].
